@@ -6,7 +6,6 @@ ROOT = os.path.dirname(os.path.dirname(os.path.abspath(__file__)))
 BASE = json.load(open("/root/.vp/BASELINE.json"))
 
 NA = {
-    "C15": "every observable (pixels, transform, CRS, nodata, block layout, overviews, overwrite behaviour on disk) is produced by GDAL through rasterio; the only arithmetic (block-size rounding) is obligation L1 of C05",
 }
 PENDING = "solver-based check designed (DESIGN.md section 4) but not yet built in this round"
 
